@@ -95,7 +95,9 @@ def w_grating(ctx, rng, i):
     vis = float(rng.choice([1.0, 1.0, 0.5, 0.8, 0.25]))        # visibility: already contained in vdneff, so it must not matter on this route
     neff = float(rng.choice([1.45, 1.45, 1.447, 1.5]))
     ctx.describe(fs=fs, n=n, n_pol=n_pol, kL=kL, vdneff=vdneff, F=F, apodisation=apo_name, v=vis, neff=neff, bragg_offset_bins=m_off)
-    out, H, cap = run_fbg(x, fc=fc, vdneff=vdneff, kL=kL, apodization=apo, F=F, v=vis, neff=neff)
+    # a DC index change of exactly zero stated next to the AC one (dneff=0 or 0.0) is the same design as leaving dneff out
+    extra = {} if i % 4 else {"dneff": [0, 0.0][int(rng.integers(2))]}
+    out, H, cap = run_fbg(x, fc=fc, vdneff=vdneff, kL=kL, apodization=apo, F=F, v=vis, neff=neff, **extra)
     ctx.check("input_unchanged", core.digest(x.signal) == d0, "FBG modified its input")
     ok = isinstance(out, T.optical_signal) and out.signal.shape == x.signal.shape and out.n_pol == n_pol and H.shape == (n,)
     if not ctx.check("fbg.layout", ok, f"FBG output/H have the wrong shape: out {getattr(getattr(out, 'signal', None), 'shape', None)}, H {H.shape}"):
